@@ -386,6 +386,12 @@ func bracketEscaper(w io.Writer, b []byte) {
 	w.Write([]byte("»"))
 }
 
+func bracketEscaper2(w io.Writer, b []byte) {
+	w.Write([]byte("‹"))
+	w.Write(b)
+	w.Write([]byte("›"))
+}
+
 type refStruct struct {
 	A int
 	B string
@@ -713,10 +719,25 @@ func xReplayWith(tag string) func(i int, raw json.RawMessage) Result {
 		w.multiset = strings.HasPrefix(v.Tag, "mapset|")
 		w.nilVars = strings.HasPrefix(v.Tag, "nilvars|")
 		esc := func(s string) string { return "«" + s + "»" }
+		// "alt": odd-numbered executions go through a second Set holding the same templates but another
+		// escaper (the pooled Runtime is shared by all Sets of the process)
+		worlds := []*xWorld{w}
+		escs := []func(string) string{esc}
+		if tag == "alt" {
+			w2, err := xBuild(&v.Case, bracketEscaper2, true)
+			if err != nil {
+				return Result{Detail: "harness: " + err.Error()}
+			}
+			w2.multiset, w2.nilVars = w.multiset, w.nilVars
+			worlds = append(worlds, w2)
+			escs = append(escs, func(s string) string { return "‹" + s + "›" })
+			key = "alt:" + key
+		}
 		for k, r := range v.Case.Runs {
 			if k >= len(v.Results) {
 				return Result{Detail: "harness: vector has fewer results than runs"}
 			}
+			w, esc := worlds[k%len(worlds)], escs[k%len(worlds)]
 			o := w.execute(r)
 			ok, kind, why := xCompare(w, v.Results[k], o, esc)
 			if !ok {
@@ -733,6 +754,9 @@ func init() {
 	commands["replay-exec"] = func(a []string) int {
 		defer installTracer()()
 		return replayLoop(a[0], a[1], xReplayWith(""))
+	}
+	commands["replay-exec-alt"] = func(a []string) int {
+		return replayLoop(a[0], a[1], xReplayWith("alt"))
 	}
 }
 
